@@ -68,7 +68,13 @@ class Bucket:
             self.reset()
             return
         # the source code of the file changed, we need to reload
-        checksum = pickle.load(f)
+        # a truncated or damaged entry is a cache miss, unpickling
+        # garbage can raise nearly anything
+        try:
+            checksum = pickle.load(f)
+        except Exception:
+            self.reset()
+            return
         if self.checksum != checksum:
             self.reset()
             return
